@@ -1,0 +1,36 @@
+//go:build verif
+
+// Contracts read by /verif/govc (comment-only; never compiled into the node).
+
+package merklization
+
+// GP Appendix D node encodings (octet 0 carries the flag bits in its top positions):
+// branch: left hash with its first bit cleared, then the right hash
+//@ func encodeBranchNode
+//@   props C15
+//@   ensures head: result[0] == left[0] & 127
+//@   ensures left: forall(i, 1, 32, result[i] == left[i])
+//@   ensures right: forall(i, 0, 32, result[32+i] == right[i])
+
+// leaf: values of at most 32 octets are embedded (flag 10, length in the low six bits, zero padding); longer values
+// are represented by their Blake2b hash (flag 11); the first 31 key octets follow the head octet
+//@ func encodeLeafNode
+//@   props C15
+//@   ensures key: forall(i, 0, 31, result[1+i] == key[i])
+//@   ensures embedded: len(value) <= 32 ==> result[0] == 128 | uint8(len(value)) && forall(i, 0, 32, result[32+i] == ite(i < len(value), value[i], 0))
+//@   ensures hashed: len(value) > 32 ==> result[0] == 192 && forall(i, 0, 32, result[32+i] == hash.Blake2bHash(value)[i])
+
+// in-place partition by key bit `depth` (most significant bit of octet 0 is bit 0): the returned pivot separates the
+// entries whose bit is 0 from those whose bit is 1
+//@ func partitionByBit
+//@   props C15
+//@   requires depth: depth >= 0 && depth < 248
+//@   ensures pivot: result >= 0 && result <= len(entries)
+//@   ensures zeros: forall(i, 0, result, entries[i].Key[depth/8] & uint8(128 >> uint(depth%8)) == 0)
+//@   ensures ones: forall(i, result, len(entries), entries[i].Key[depth/8] & uint8(128 >> uint(depth%8)) != 0)
+//@   assigns entries[*]
+//@   loop rangeindex#0
+//@     invariant range: rangeindex >= -1 && rangeindex < len(entries) && left >= 0 && left <= rangeindex + 1
+//@     invariant zeros: forall(i, 0, left, entries[i].Key[depth/8] & uint8(128 >> uint(depth%8)) == 0)
+//@     invariant ones: forall(i, left, rangeindex+1, entries[i].Key[depth/8] & uint8(128 >> uint(depth%8)) != 0)
+//@     invariant frame: frame_only(elems(entries))
